@@ -173,12 +173,15 @@ def analyse(case, x, tag, out):
         G = O.grid(qtype)
         gmax = float(G[-1])
         qmax = float(torch.finfo(qtype.dtype).max if qtype.is_floating_point else 127) if case["entry"] in ("absmax_scale", "calibration") else 127.0
-        limit = amax / qmax * (1 + 2 * u) + eta
+        # (the calibration entry may average two equal batches: momentum * s + (1 - momentum) * s costs three roundings, each up
+        # to eta / 2 in the subnormal range)
+        keta = 3 if case["entry"] == "calibration" else 1
+        limit = amax / qmax * (1 + 2 * u) + keta * eta
         bad = nz & (s_g > limit) & (amax / qmax >= eta)
         if bool(bad.any()):
             i = int(torch.nonzero(bad)[0])
             out.fail(f"{tag}/scale-too-large", f"group {i}: scale {s_g[i].item():.6g} > absmax/qmax = {(amax / qmax)[i].item():.6g}")
-        bad = nz & (amax > s_g * gmax * (1 + 4 * u) + gmax * eta)
+        bad = nz & (amax > s_g * gmax * (1 + 4 * u) + gmax * keta * eta)
         if bool(bad.any()):
             i = int(torch.nonzero(bad)[0])
             out.fail(f"{tag}/saturates", f"group {i}: absmax {amax[i].item():.6g} > scale*{gmax} = {(s_g[i] * gmax).item():.6g}")
